@@ -208,7 +208,8 @@ def run(ctx, prog):
     if len(apps) == 1 and len(st) == 1 and self_attr(st[0].targets[0]) == 'convergence_traces':
         c_ = apps[0]
         parts = list(c_.args[0].elts) if c_.args and isinstance(c_.args[0], (ast.Tuple, ast.List)) else list(c_.args[:2])
-        ptxt = [norm(x).replace(' ', '') for x in parts]
+        ldefs_ = astutil.local_defs(cc.node)
+        ptxt = [norm(astutil.expand_locals(x, ldefs_)).replace(' ', '') for x in parts]
         ax = next((k.value for k in c_.keywords if k.arg == 'axis'), c_.args[2] if len(c_.args) > 2 else (c_.args[1] if len(c_.args) == 2 and isinstance(c_.args[0], (ast.Tuple, ast.List)) else None))
         axv = astutil.const_value_(ax) if ax is not None else None
         if len(ptxt) == 2 and ptxt[0] == 'self.convergence_traces' and ptxt[1] in NEWLAST and isinstance(axv, int):
